@@ -58,6 +58,11 @@ func (g *gen) drawTrack(id uint32, fragmented, first bool) *track {
 	default:
 		kinds = "evte"
 	}
+	if g.allEnc && t.handler == "vide" {
+		kinds = "encv"
+	} else if g.allEnc && t.handler == "soun" {
+		kinds = "enca"
+	}
 	for i, n := 0, 1+b2i(g.pct(l+":twoentries", 15)); i < n; i++ {
 		e := g.alt(l+":entry", kinds)
 		t.entries = append(t.entries, e)
@@ -592,7 +597,12 @@ func (g *gen) trafBox(t *track, j int, haveMoov bool) (kid, *trafPlan) {
 			w.u32(0)
 		}
 		add("sgpd", w.u32(1).raw(e).b)
-		add("sbgp", full(0, 0).str("seig").u32(1).u32(uint32(total)).u32(0x10001).b)
+		index := uint32(0x10001)
+		if g.hostile(l+":seigindex", 30) {
+			// the fragment-local description has exactly one entry: everything around 0x10001 is out of range
+			index = g.pickU32(l+":badseigindex", 0x10002, 0x10000, 0x10003, 0, 1, 2, 0xffffffff, 0x20001)
+		}
+		add("sbgp", full(0, 0).str("seig").u32(1).u32(uint32(total)).u32(index).b)
 	}
 	if ivSize < 0 && total > 0 && g.ruleCount("traf", "sgpd") > 0 {
 		gt := g.groupingType(l + ":grouping")
@@ -907,6 +917,7 @@ func File(t *rapid.T, kind string, o Opt) []byte {
 	if kind == "any" || kind == "" {
 		kind = g.pick("file:kind", "prog", "init", "media", "frag")
 	}
+	g.allEnc = g.pct("file:protected-presentation", 20)
 	switch kind {
 	case "prog":
 		return g.fileProg()
